@@ -557,6 +557,38 @@ func secondModule(g starlark.StringDict) string {
 			}
 		}
 	}
+	// values born in this module from an operand that is already frozen and a fresh mutable part: the result is a
+	// new value of this module, whatever it copied from its frozen operand
+	count := map[string]int{}
+	j := 0
+	for _, n := range names {
+		var forms []string
+		switch g[n].(type) {
+		case *starlarkstruct.Struct:
+			forms = []string{"%s + struct(fresh_items = [1, [2]])", "struct(fresh_items = [1, [2]]) + %s"}
+		case *starlark.List:
+			forms = []string{"%s + [[1]]", "[[1]] + %s", "%s * 2", "sorted(%s, key = lambda e: 0) + [[1]]", "list(zip(%s, [[1], [2]]))"}
+		case starlark.Tuple:
+			forms = []string{"%s + ([1],)", "([1],) + %s", "%s * 2"}
+		case *starlark.Dict:
+			forms = []string{"%s | {\"fresh\": [1]}", "{\"fresh\": [1]} | %s", "dict(%s, fresh = [1])", "[(k, [v]) for k, v in %s.items()]"}
+		case *starlark.Set:
+			forms = []string{"%s | set([\"fresh\"])", "%s.union([\"fresh\"])", "set([\"fresh\"]) | %s", "%s - set([5])"}
+		}
+		if len(forms) == 0 {
+			continue
+		}
+		kind := fmt.Sprintf("%T", g[n])
+		if count[kind] >= 2 {
+			continue
+		}
+		count[kind]++
+		// two of the forms per value, rotating (the snapshot-per-mutation oracle is quadratic in the number of nodes)
+		for k := 0; k < 2; k++ {
+			j++
+			fmt.Fprintf(&sb, "b_born%d = attempt(lambda: "+forms[(j+len(n))%len(forms)]+")\n", j, n)
+		}
+	}
 	sb.WriteString("b_mix = [" + strings.Join(names, ", ") + "]\n")
 	sb.WriteString("b_fresh = [[1], {\"k\": [2]}]\n")
 	sb.WriteString("def b_fn(d = [b_fresh]):\n    return d\n")
@@ -573,7 +605,7 @@ func clip(s string) string {
 var subModule = vk.Register("module", checkModule)
 
 func TestPropModules(t *testing.T) {
-	vk.Rapid(t, subModule, vk.N(1500, 12000), genModule)
+	vk.Rapid(t, subModule, vk.N(1000, 12000), genModule)
 }
 
 func TestReplay(t *testing.T) { vk.Replay(t) }
